@@ -69,7 +69,12 @@ func checkEgressPolicyURL(ctx context.Context, u *url.URL, policy EgressPolicy, 
 		if err != nil {
 			return fmt.Errorf("%w: invalid host %q", ErrPolicyDenied, host)
 		}
-		host = ascii
+		// The mapping turns the full-width and ideographic full stops into ".",
+		// so a trailing dot can appear only now.
+		host = strings.TrimSuffix(ascii, ".")
+		if host == "" {
+			return fmt.Errorf("%w: empty host", ErrPolicyDenied)
+		}
 	}
 
 	needIPs := policy.DNSRebindProtection || hasCIDRRules(policy)
